@@ -10,7 +10,7 @@ for f in "$OUTD"/*.txt; do id=$(basename $f .txt); prop=${id%%-*}
   rc=$(grep -o "check $prop exit=[0-9]*" $f | grep -o "[0-9]*$")
   ok=$(grep -c -E "apply=ok|passed=158 failed=0|demo_clean=pass|demo_patched=fail" $f)
   echo "$id confirmed=$ok/4 own_check_exit=${rc:-?}"
-  [ "$rc" = 1 ] && [ "$ok" = 4 ] || miss=$((miss+1))
+  if ! { [ "$rc" = 1 ] && [ "$ok" = 4 ]; }; then miss=$((miss+1)); mkdir -p "${REVERIFY_KEEP:-/tmp/rdm-reverify-failed}"; cp $f "${REVERIFY_KEEP:-/tmp/rdm-reverify-failed}/"; fi
 done
 rm -rf "$OUTD"
 echo "missed_or_unconfirmed=$miss"
